@@ -151,3 +151,53 @@ package didstore
 //@   call (binary.bigEndian).PutUint32 #1 requires [count-arithmetic] arg(2) == (did(call (binary.bigEndian).Uint32 #1) ? ret(call (binary.bigEndian).Uint32 #1) : uint32(0))
 //@           + ((len(metadata.SourceTransactions) > 1 && !((did(call (go-stoabs.Writer).Get #2) && len(ret(call (go-stoabs.Writer).Get #2).0) > 0) || (did(call (go-stoabs.Writer).Get #3) && len(ret(call (go-stoabs.Writer).Get #3).0) > 0))) ? uint32(1) : uint32(0))
 //@           - ((len(metadata.SourceTransactions) <= 1 && ((did(call (go-stoabs.Writer).Get #2) && len(ret(call (go-stoabs.Writer).Get #2).0) > 0) || (did(call (go-stoabs.Writer).Get #3) && len(ret(call (go-stoabs.Writer).Get #3).0) > 0))) ? uint32(1) : uint32(0))
+
+// ---- C10: a deactivated DID never resolves as active again ----
+// Resolution walks from the latest version to older ones and returns the first that matches. It must
+// never pass over a deactivated version that was in effect for what is asked (the latest, or the
+// moment in time) and hand out the active version before it.
+
+//@ func (time.Time).After
+//@   trusted
+//@   pure
+//@ func (hash.SHA256Hash).Equals
+//@   trusted
+//@   pure
+
+//@ func deactivatedAtResolveTime
+//@   prop C10
+//@   pure
+//@   ensures [in-effect-at-the-requested-moment] result <==> (resolveMetadata != nil && !resolveMetadata.AllowDeactivated && resolveMetadata.ResolveTime != nil
+//@        && resolveMetadata.Hash == nil && resolveMetadata.SourceTransaction == nil && !metadata.Updated.After(*resolveMetadata.ResolveTime))
+
+//@ func latestNonDeactivatedRequested
+//@   prop C10
+//@   pure
+//@   ensures [nil-metadata-asks-for-the-latest-active] resolveMetadata == nil ==> result
+//@   ensures [only-without-filters] result && resolveMetadata != nil ==> resolveMetadata.ResolveTime == nil && resolveMetadata.Hash == nil && resolveMetadata.SourceTransaction == nil && !resolveMetadata.AllowDeactivated
+
+//@ func matches
+//@   prop C10
+//@   modifies nothing
+//@   loop 1 invariant true
+//@   ensures [deactivated-only-when-allowed] result && metadata.Deactivated ==> resolveMetadata != nil && resolveMetadata.AllowDeactivated
+//@   ensures [not-from-the-future] result && resolveMetadata != nil && resolveMetadata.ResolveTime != nil ==> !metadata.Updated.After(*resolveMetadata.ResolveTime) && !metadata.Created.After(*resolveMetadata.ResolveTime)
+
+//@ func readMetadata
+//@   trusted
+//@   benign
+//@ func readDocument
+//@   trusted
+//@   benign
+//@ func (documentMetadata).asVDRMetadata
+//@   trusted
+//@   benign
+
+//@ func (*store).Resolve$1
+//@   prop C10
+//@   loop 1 invariant !did(call readMetadata #1) || !isNilIface(ret(call readMetadata #1).1)
+//@        || !( ret(call readMetadata #1).0.Deactivated && (latestNonDeactivatedRequested(resolveMetadata) || (resolveMetadata != nil && !resolveMetadata.AllowDeactivated && resolveMetadata.ResolveTime != nil && resolveMetadata.Hash == nil && resolveMetadata.SourceTransaction == nil && !ret(call readMetadata #1).0.Updated.After(*resolveMetadata.ResolveTime))) )
+//@   call readDocument #1 requires [version-matches-and-no-deactivation-was-passed-over] isNilIface(ret(call readMetadata #1).1) && same(metadata, ret(call readMetadata #1).0)
+//@        && ret(call matches #1) == true && same(arg(call matches #1, 0), metadata) && arg(call matches #1, 1) == resolveMetadata
+//@        && !( metadata.Deactivated && (latestNonDeactivatedRequested(resolveMetadata) || (resolveMetadata != nil && !resolveMetadata.AllowDeactivated && resolveMetadata.ResolveTime != nil && resolveMetadata.Hash == nil && resolveMetadata.SourceTransaction == nil && !metadata.Updated.After(*resolveMetadata.ResolveTime))) )
+//@        && same(arg(1), metadata.Hash)
